@@ -360,11 +360,11 @@ func m1Case(c *verdict.Ctx, s sink, idx int) {
 // ---------------------------------------------------------------- M2 raw
 
 type m2rawDetail struct {
-	Mode   string `json:"mode"`
-	Frames []int  `json:"frame_data_lengths,omitempty"`
+	Mode   string  `json:"mode"`
+	Frames []int   `json:"frame_data_lengths,omitempty"`
 	Plan   dirPlan `json:"plan"`
-	At     int    `json:"stream_offset"`
-	Note   string `json:"note"`
+	At     int     `json:"stream_offset"`
+	Note   string  `json:"note"`
 }
 
 func runM2Raw(c *verdict.Ctx, s sink, stream string, lo, hi int) {
